@@ -1014,6 +1014,49 @@ impl<I: Eq, A: Eq> Game<I, A> {
     }
 }
 
+#[cfg(cfr_verif)]
+impl<I, A> Game<I, A> {
+    /// verification only: the compact tree with its infoset indices
+    pub fn verif_dump(&self) -> cfr_verif_seam::Dump {
+        fn rec(node: &Node) -> cfr_verif_seam::DumpNode {
+            match node {
+                Node::Terminal(pay) => cfr_verif_seam::DumpNode::Terminal(*pay),
+                Node::Chance(chance) => cfr_verif_seam::DumpNode::Chance {
+                    infoset: chance.infoset,
+                    outcomes: chance.outcomes.iter().map(rec).collect(),
+                },
+                Node::Player(player) => cfr_verif_seam::DumpNode::Player {
+                    player_two: player.num == PlayerNum::Two,
+                    infoset: player.infoset,
+                    actions: player.actions.iter().map(rec).collect(),
+                },
+            }
+        }
+        let [one, two] = &self.player_infosets;
+        cfr_verif_seam::Dump {
+            root: rec(&self.root),
+            chance_probs: self
+                .chance_infosets
+                .iter()
+                .map(|info| info.probs.to_vec())
+                .collect(),
+            num_actions: [
+                one.iter().map(|info| info.num_actions()).collect(),
+                two.iter().map(|info| info.num_actions()).collect(),
+            ],
+        }
+    }
+
+    /// verification only: infosets and their actions in index order
+    pub fn verif_infosets(&self) -> [Vec<(&I, &[A])>; 2] {
+        let [one, two] = &self.player_infosets;
+        [
+            one.iter().map(|i| (&i.infoset, &*i.actions)).collect(),
+            two.iter().map(|i| (&i.infoset, &*i.actions)).collect(),
+        ]
+    }
+}
+
 /// A compact strategy for both players
 ///
 /// Strategies are tied to a specific game and maintain a reference back to them. Create these from
